@@ -8,7 +8,7 @@ PROPS = ["Props/C16.v"]
 GEN = ["Effects.v"]
 MODEL_IS_SPEC = False
 RULE = ("pools of 2-3 live result iterators (same compiled query on the same value, same query on different values, different queries of one environment, different environments; "
-        "queries with filters, nested filters and descendant segments) with combined result length <= 40: EVERY schedule of next() calls of length total+k is replayed on fresh "
+        "queries with filters, nested filters, filters that read the root $ applied to different documents at once, and descendant segments) with combined result length <= 40: EVERY schedule of next() calls of length total+k is replayed on fresh "
         "iterators of the real library (sampled where there are more than 400 (quick) / 3000 schedules), with abandoned iterators dropped and garbage-collected mid-schedule; each iterator's outputs must be the prefix "
         "of its solitary run; plus 8 threads compiling and evaluating on one shared environment under sys.setswitchinterval(1e-6), compared with sequential results; "
         "the solitary sequences are compared with the model; non-trivial = at least two iterators yield something; distinct = distinct (pool, schedule)")
@@ -61,6 +61,16 @@ def cases(ctx, budget):
                 t = gen.render_query(rng, gen.guided_query(rng, v, names=names, filters=rng.random() < 0.6, depth=2, maxseg=3))
                 e = env_a if mode == "other-query" else env_b
                 specs.append((e.compile(t), t, v, e))
+        if rng.random() < 0.3:
+            # one compiled query whose filter reads the ROOT, live over different documents at once: each iterator's $ is its own document
+            t = rng.choice(["$.items[?@.v >= $.limit].id", "$.items[?@.v < $.limit]", "$..[?@.v == $.limit].id", "$.items[?$.on && @.v != $.limit].id",
+                            "$.items[?count($.items[?@.v > $.limit]) > @.v].id", "$.items[?@.v >= $.limit][?@ != $.limit]"])
+            cq = env_a.compile(t)
+            specs = []
+            for i in range(k):
+                v = {"limit": rng.randint(0, 4), "on": rng.random() < 0.7,
+                     "items": [{"id": 10 * i + j, "v": rng.randint(0, 5)} for j in range(rng.randint(2, 5))]}
+                specs.append((cq, t, v, env_a))
         solos = []
         for c, t, v, e in specs:
             del rx[:]
